@@ -32,9 +32,9 @@ type c14Scenario struct {
 	kind     string
 	files    map[string][]byte
 	symlinks map[string]string
-	main     string   // journal argument
-	mustFail bool     // a bad file / bad directive is planted: exit must be non-zero
-	onlyCmds []string // restrict to these commands ("" = all)
+	main     string              // journal argument
+	mustFail bool                // a bad file / bad directive is planted: exit must be non-zero
+	onlyCmds []string            // restrict to these commands ("" = all)
 	flags    map[string][]string // extra flags per command key (hostile flags)
 	uid      int
 	unread   []string // files to chmod 000
